@@ -63,6 +63,37 @@ def gen_block(rng, depth, nstmts, ext):
     return out
 
 
+def render_value(state, names):
+    """an expression that reads the names left to right, never raises whatever their types are, and has a type chosen
+    at random (int / str / float / list / bool): re-assignments change the type of a variable"""
+    rnd = state.get('rnd')
+    inner = '[%s]' % ', '.join(names)
+    if rnd is None:
+        return 'len(%s)' % inner
+    k = rnd.randrange(8)
+    if k < 3:
+        return 'len(%s)' % inner
+    if k == 3:
+        return 'str(%s)' % inner
+    if k == 4:
+        return 'float(len(%s))' % inner
+    if k == 5:
+        return inner
+    if k == 6 and len(names) == 2:
+        return '(%s %s %s)' % (names[0], rnd.choice(['==', '!=', 'is', 'is not', '<=' if False else '==']), names[1])
+    return '(len(%s) + 1)' % inner
+
+
+def render_reads(state, names):
+    """the argument list of a print: the names read left to right, sometimes inside a comparison"""
+    rnd = state.get('rnd')
+    if rnd is not None and len(names) == 2 and rnd.random() < 0.5:
+        return '%s %s %s' % (names[0], rnd.choice(['==', '!=', 'is', 'is not']), names[1])
+    if rnd is not None and len(names) == 1 and rnd.random() < 0.3:
+        return '%s %s %s' % (rnd.choice(['0', '"n"']), rnd.choice(['==', '!=']), names[0])
+    return ', '.join(names)
+
+
 def render(block, ind, state):
     """-> python lines; assigns line numbers (state['line']) and counts choices"""
     lines = []
@@ -70,13 +101,13 @@ def render(block, ind, state):
         state['line'] += 1
         l = state['line']
         if st[0] == 'assign':
-            lines.append('%sv%d = max(0, %s)' % (ind, st[1], ', '.join(['0'] + ['v%d' % r for r in st[2]])))
+            lines.append('%sv%d = %s' % (ind, st[1], render_value(state, ['v%d' % r for r in st[2]])))
             st_l = l
         elif st[0] == 'expr':
-            lines.append('%sprint(%s)' % (ind, ', '.join('v%d' % r for r in st[1])))
+            lines.append('%sprint(%s)' % (ind, render_reads(state, ['v%d' % r for r in st[1]])))
         elif st[0] == 'if':
             state['choices'] += 1
-            lines.append('%sif input(%s):' % (ind, ', '.join('v%d' % r for r in st[1])))
+            lines.append('%sif input(%s):' % (ind, render_reads(state, ['v%d' % r for r in st[1]])))
             sub = render(st[2], ind + '    ', state)
             lines += sub
             if st[3]:
@@ -87,7 +118,7 @@ def render(block, ind, state):
             state['choices'] += 1
             state['loops'] += 1
             lines.append('%sfor _k%d in range(input(%s)):' % (ind, l, ', '.join('v%d' % r for r in st[1])) if False else
-                         '%swhile input(%s):' % (ind, ', '.join('v%d' % r for r in st[1])))
+                         '%swhile input(%s):' % (ind, render_reads(state, ['v%d' % r for r in st[1]])))
             lines += render(st[2], ind + '    ', state)
         elif st[0] == 'for':
             state['choices'] += 1
@@ -181,7 +212,7 @@ def correspondence(ctx):
     progs.append(([('for', 2, [], [('assign', 0, [])]), ('expr', [0])], True))
     payload = []
     for block, ext in progs:
-        st = {'line': 0, 'choices': 0, 'loops': 0}
+        st = {'line': 0, 'choices': 0, 'loops': 0, 'rnd': rng}
         code = '\n'.join(render(block, '', st)) + '\n'
         payload.append({'code': code, 'n_choices': st['choices'], 'truth': st['choices'] <= (6 if not st['loops'] else 4),
                         'max_iter': 2 if st['loops'] else 1})
